@@ -59,6 +59,8 @@ def run(ctx):
     ctx.rule("R8.4", "-j: every path to a job start passes a completed ensure_token_or_cheat since the last point where the process may hold no token")
     ctx.rule("R8.5", "the token-pipe read that increments my_tokens is guarded, after select() of the same wake-up, by a test that the process holds no token")
     ctx.rule("R8.6", "tokens are returned on exit: Drop for JobServer and force_return_tokens on the path after block_on; no process::exit reachable from the scheduler in the parent process")
+    ctx.rule("R8.8", "the scheduling passes end holding a token: from every point where the own token was given away (wait_all resume, release_mine) a completed ensure_token_or_cheat lies on every path to the normal end of the passes")
+    ctx.rule("R8.9", "JobServer::setup: the inherited token pipe is used only for -j0 (an explicit -j1 or -jN gets its own jobserver); a new jobserver is primed with max_jobs - 1 extra tokens")
     ctx.rule("R8.7", "wait_all releases the process's own token only while children run; the top-level self-test runs only when none remain")
 
     # ---- R8.1
@@ -196,12 +198,60 @@ def run(ctx):
                 det = ("cheat byte read => no create_tokens; otherwise exactly create_tokens(1); both before wait_fds.remove" if ok else
                        "child exit can %s" % ("recreate a token although a cheat byte was eaten" if p is not None else "forget the job without recreating its token"))
     ctx.ob("R8.3", "block_on|child-exit-token-recreated-xor-cheat-eaten", ok, where=ctx.where(bo, cts[0]) if cts else bo.span, detail=det)
+    surplus_released(ctx, "R8.3")
 
     # ---- R8.4 / token preconditions
     token_preconditions(ctx, "R8.4", include_release_mine=False)
 
     # ---- R8.5
     token_read_guard(ctx, "R8.5")
+
+    # ---- R8.8
+    S = anchors.scheduler(prog)
+    s_ba = BA.of(S)
+    cw = classify_waits(S)
+    gains = {r for _, r in cw["gain"] if r is not None}
+    ends = common.ok_returns(S) or s_ba.returns()
+    pts = [("wait_all-resume", r, p) for p, r in cw["loss"] if r is not None]
+    pts += [("release_mine-return", S.blocks[i]["term"].get("target"), i) for i in s_ba.calls(r"jobserver::JobServerHandle::release_mine")]
+    for k, (nm, lb, at) in common.ordinal_keys([(x[0], x) for x in pts]):
+        if lb is None:
+            continue
+        p = s_ba.path([lb], ends, avoid=frozenset(gains), incl=True)
+        ctx.ob("R8.8", "%s|%s->end-of-passes" % (S.key, k), p is None, where=ctx.where(S, at),
+               detail="a token is re-acquired on every path from here to the end of the scheduling passes" if p is None else
+               "the process can finish its passes (and exit) holding no token although it gave its own away: its parent recreates one for it, so a token appears from nothing",
+               witness={"path": p[:25] if p else None})
+
+    # ---- R8.9
+    su = prog.one(r"jobserver::JobServer::setup")
+    uba = BA.of(su)
+    msw = None
+    for sw in sorted(uba.live):
+        t = su.blocks[sw]["term"]
+        if t["t"] == "switch" and t["discr_ty"] == "i32" and op_local(t["discr"]) == 1:
+            msw = (sw, {v: tg for v, tg in t["arms"]}, t["otherwise"])
+    somes = [i for i in common.blocks_with_agg(su, r"core::option::Option", "Some") if any(
+        s_["s"] == "assign" and s_["rv"]["k"] == "agg" and s_["rv"].get("variant") == "Some" and "(i32, i32)" in su.locals[s_["place"]["l"]] and su.local_name(s_["place"]["l"]) == "token_fds"
+        for s_ in su.blocks[i]["stmts"])]
+    ok = False
+    if msw and somes:
+        sw, arms, other = msw
+        z = arms.get(0)
+        ok = z is not None and all(uba.edge_dominates((sw, z), x) for x in somes) and z != other and arms.get(1) != z
+    ctx.ob("R8.9", "setup|inherited-pipe-only-for-j0", ok, where=su.span,
+           detail="token_fds = Some(inherited pipe) only on the max_jobs == 0 arm" if ok else "an explicit -j1/-jN keeps using the parent's token pipe: the requested limit is ignored below it")
+    ct = uba.calls(r"jobserver::ServerState::create_tokens")
+    ok = False
+    if ct:
+        sl, org, ar = backward_direct(su, op_local(su.blocks[ct[0]]["term"]["args"][1]))
+        subs = []
+        for l in sl:
+            for d in uba.defs.get(l, []):
+                if d[0] == "stmt" and d[3]["k"] == "binop" and d[3]["op"].startswith("Sub") and const_int(d[3]["b"]) == 1:
+                    subs.append(d)
+        ok = bool(subs) and 1 in sl
+    ctx.ob("R8.9", "setup|primed-with-max_jobs-1", ok, where=su.span, detail="create_tokens(realmax - 1) with realmax derived from max_jobs" if ok else "the new jobserver is not primed with max_jobs - 1 tokens")
 
     # ---- R8.6
     dj = prog.find(r"<jobserver::JobServer as core::ops::drop::Drop>::drop")
@@ -260,6 +310,29 @@ def run(ctx):
         ok = all(pba.edge_dominates((sw, f_t), r) for r in tt)
     ctx.ob("R8.7", "AllJobsDone::poll|self-test-only-when-idle", ok, where=poll.span,
            detail="test_tokens() is dominated by is_running() == false" if ok else "token self-test may run while children still hold tokens")
+
+
+def surplus_released(ctx, rid):
+    """After a child's token is recreated the surplus goes back to the pipe before the next event is
+    handled: create_tokens(1) -> has_token() -> release_except_mine, so that a wake-up that reaps
+    several children cannot leave my_tokens > 1."""
+    prog = ctx.prog
+    bo = anchors.event_loop(prog)
+    ba = BA.of(bo)
+    cts = ba.calls(r"jobserver::ServerState::create_tokens")
+    rel = ba.calls(r"jobserver::ServerState::release_except_mine")
+    removes = ba.calls(r"std::collections::hash::map::HashMap::remove")
+    hts = ba.switches_on_call(r"jobserver::ServerState::has_token")
+    ok = False
+    if cts and rel and removes and hts:
+        ct = cts[0]
+        # the has_token test and the release come after the recreate and before the job is forgotten
+        ok = any(ba.dominates(ct, sw) and all(ba.edge_dominates((sw, t_t), r) for r in rel) for (sw, t_t, f_t, c) in hts)
+        p = ba.path([ct], removes, avoid=frozenset(sw for (sw, _, _, _) in hts))
+        ok = ok and p is None
+    ctx.ob(rid, "%s|surplus-released-after-recreate" % bo.key, ok, where=ctx.where(bo, cts[0]) if cts else bo.span,
+           detail="create_tokens(1) is followed by has_token() => release_except_mine() before the job is forgotten" if ok else
+           "the surplus is not released after the child's token was recreated: two children reaped in one wake-up leave my_tokens == 2 and the `my_tokens == 1` assertions fire")
 
 
 def is_panic_path(body, bb):
